@@ -44,6 +44,11 @@ def names_h():
             d(L + '__mutex__0', 'vf_lock_mutex')
             d(L + '__swap__1', 'vf_lock_swap')
             d(L + '__release__0', 'vf_lock_release')
+        SL = 'std_scoped_lock_' + M           # scoped_lock over ONE mutex = lock_guard
+        d(SL, 'vf_lock')
+        d(SL + '__ctor__%s_ref' % M, 'vf_guard_ctor')
+        d(SL + '__ctor__mutex_type_ref', 'vf_guard_ctor')
+        d(SL + '__dtor', 'vf_guard_dtor')
         G = 'std_lock_guard_' + M
         d(G, 'vf_lock')
         d(G + '__ctor__mutex_type_ref', 'vf_guard_ctor')
